@@ -64,7 +64,7 @@ func mustStat(v avfs.VFS, p string) fs.FileInfo {
 
 // snippet returns the Go test source reproducing the case, "" when some part
 // of it cannot be expressed.
-func (u *unit) snippet(args []argv, kind, msg string) (src string) {
+func (u *seqUnit) snippet(args []seqArg, kind, msg string) (src string) {
 	k, _ := fsx.Guard(func() {
 		defer func() {
 			if r := recover(); r != nil {
@@ -88,7 +88,7 @@ func (u *unit) snippet(args []argv, kind, msg string) (src string) {
 	return src
 }
 
-func (u *unit) snippet1(args []argv, kind, msg string) string {
+func (u *seqUnit) snippet1(args []seqArg, kind, msg string) string {
 	in := u.T.newInst()
 
 	var body []string
@@ -150,7 +150,7 @@ func (u *unit) snippet1(args []argv, kind, msg string) string {
 	}
 
 	for _, m := range u.St.Muts {
-		body = append(body, mutators[m].Go(in))
+		body = append(body, seqMutators[m].Go(in))
 	}
 
 	if u.HK != nil {
